@@ -1,0 +1,28 @@
+// SPDX-FileCopyrightText: (C) 2024 Intel Corporation
+// SPDX-License-Identifier: Apache 2.0
+
+//go:build verif
+
+package cose
+
+import "crypto"
+
+// VerifSignatureAlgorithms returns the registered signature algorithms and
+// their hash functions, for the verification harness.
+func VerifSignatureAlgorithms() map[SignatureAlgorithm]crypto.Hash {
+	out := make(map[SignatureAlgorithm]crypto.Hash)
+	for alg, f := range sigAlgorithms {
+		out[alg] = f()
+	}
+	return out
+}
+
+// VerifMacAlgorithms returns the registered MAC algorithms and their key
+// sizes in bytes.
+func VerifMacAlgorithms() map[MacAlgorithm]uint16 {
+	out := make(map[MacAlgorithm]uint16)
+	for alg, n := range macAlgorithmKeySizes {
+		out[alg] = n
+	}
+	return out
+}
